@@ -581,6 +581,35 @@ def tie_break(ctx, o):
             o.fail(P, s.ctx, s.stmt, 'the tie-break weight is changed after the event was created', file=s.mod.path, line=s.line)
 
 
+def init_order(ctx, o):
+    """every loop that calls initialize() on the elements of the registry, reachable from System.simulate, iterates the registry list itself"""
+    import ast
+    from ..cfg import calls_at, call_attr
+    from ..norm import FrameEnv, subst
+    P = ctx.P
+    S = P.cls('System')
+    g = ctx.graph(S, 'simulate')
+    n_loops = 0
+    for n in g.nodes.values():
+        if n.kind != 'for' or not isinstance(n.ast.target, ast.Name):
+            continue
+        v = n.ast.target.id
+        inits = [x for s_ in n.ast.body for x in ast.walk(s_) if isinstance(x, ast.Call) and isinstance(x.func, ast.Attribute) and x.func.attr == 'initialize'
+                 and isinstance(x.func.value, ast.Name) and x.func.value.id == v]
+        if not inits:
+            continue
+        n_loops += 1
+        o.count()
+        it = ast.unparse(subst(n.ast.iter, FrameEnv(n.frame)))
+        if it != 'self._assets':
+            o.fail(P, 'System.simulate', n.ast.iter, f'the assets are initialised by iterating `{it}` instead of the registry in registration order: the same seed gives a different '
+                   'evolution when names / ids differ between two otherwise identical runs', node=n)
+        else:
+            o.witness(('init-loop', n.line))
+            o.sample({'loop': n.src(), 'file': P.rel(n.file), 'line': n.line})
+    o.require(n_loops >= 1, 'no loop that initialises the registered assets is reachable from System.simulate')
+
+
 def check(ctx):
     P = ctx.P
     for nm in ('System', 'Environment', 'Event'):
@@ -599,7 +628,10 @@ def check(ctx):
     shared_state(ctx, o4)
     o5 = Ob('C14.5', 'K6', 'Event.__lt__ consults asset_id only after the random weight; the weight is one global draw per event, never changed')
     tie_break(ctx, o5)
-    return [o1, o2, o3, o4, o5]
+    o6 = Ob('C14.6', 'K2', 'the registered assets are initialised in registration (construction) order -- the order in which they draw their first tie-break weights -- '
+                           'not in an order derived from names, ids or hashes')
+    init_order(ctx, o6)
+    return [o1, o2, o3, o4, o5, o6]
 
 
 CLAIM = {
